@@ -87,6 +87,8 @@ def handleC10 (op : String) (args : Array Json) : Option Json := do
       | .create => "create"
       | .update => "update"
     some (Json.arr #[Json.str route, c10NamesJ r.1, c10NamesJ r.2])
+  | "c10.saverow" =>
+    some (Json.bool (saveWritesRow (← jBool? (arg args 1)) (← jBool? (arg args 2)) (← jBool? (arg args 3))))
   | _ => none
 
 end Gorm.Drv
